@@ -26,11 +26,21 @@ def _ledger_check(acc, seed, nmax, failures, samples):
     n = rng.randint(1, nmax)
     steps = []
     gross = 1.0
+    mirror = len(assets) >= 2 and rng.random() < 0.3       # two assets with EQUAL quantities, prices and market values for a while
     for i in range(n):
         t = t + pd.Timedelta(minutes=rng.choice([0, 1, 30, 390]))
         a = rng.choice(assets)
+        if mirror and i < 2:
+            a = assets[i]
         L = led[a]
-        if rng.random() < 0.25 and L['q'] != 0:
+        if mirror and i < 2:
+            q, p, k = 100, 20.0, 0.0
+            pf.transact_asset(Transaction(a, q, t, p, 'oid', commission=k))
+            L.update(Gb=p * q, Gs=0.0, comm=0.0, q=q, last=p)
+            cash -= p * q
+            gross += abs(p * q)
+            steps.append(('fill', a, q, p, k))
+        elif rng.random() < 0.25 and L['q'] != 0:
             m = round(rng.uniform(0.5, 500), rng.choice([0, 2, 4]))
             pf.update_market_value_of_asset(a, m, t)
             L['last'] = m
